@@ -12,7 +12,7 @@
      tinsert tremove tlookup op(OIns,ORem) apply_op run
      valid_bytes is_prefix starts present wf_at wf bounded
      hexpr(HBytes,HCat,HHash) eval_hexpr le_bytes leaf_hexpr empty_hexpr
-     opt_leaf_hexpr hash_expr root_hash
+     opt_leaf_hexpr hash_expr root_hash commit commit_known
      al_get al_set al_del (sorted association lists = the abstract map) *)
 From Verif Require Import Lib.Base.
 
@@ -292,6 +292,13 @@ Fixpoint hash_expr (t : tree) : hexpr :=
   end.
 
 Definition root_hash (H : bytes -> bytes) (t : tree) : bytes := eval_hexpr H (hash_expr t).
+
+(* Commit computes the root and leaves the tree as it is (commit.go:44-148);
+   CommitKnown commits iff the computed root equals the expected one
+   (commit.go:29-40, ErrKnownRootMismatch otherwise): [None] = the error *)
+Definition commit (H : bytes -> bytes) (t : tree) : tree * bytes := (t, root_hash H t).
+Definition commit_known (H : bytes -> bytes) (expected : bytes) (t : tree) : tree * option bytes :=
+  if bytes_eqb (root_hash H t) expected then (t, Some (root_hash H t)) else (t, None).
 
 (* ------------------------------------------------------------------ *)
 (* The abstract ordered map: association lists sorted by byte order      *)
